@@ -302,7 +302,13 @@ impl<'a> Rw<'a> {
                 let mut e = args.first()?.clone();
                 self.visit_expr_mut(&mut e);
                 self.fire("R-MACROFN.early_fake_ok");
-                Some(parse_quote!(if #e.is_fake() { return Ok(()); }))
+                match self.opts.rename_calls.get("is_fake") {
+                    Some(nn) => {
+                        let id = syn::Ident::new(nn, Span::call_site());
+                        Some(parse_quote!(if #id(#e) { return Ok(()); }))
+                    }
+                    None => Some(parse_quote!(if #e.is_fake() { return Ok(()); })),
+                }
             }
             "bail" => {
                 self.fire("R-ERR.bail");
@@ -587,6 +593,11 @@ impl<'a> VisitMut for Rw<'a> {
                             let t = ts_str(&init.expr);
                             if t.contains(".filter(") || t.contains(".collect()") {
                                 let used = out[i + 1..].iter().any(|s2| {
+                                    if let Stmt::Macro(m) = s2 {
+                                        if m.mac.path.is_ident("vx_at") || m.mac.path.is_ident("vx_loop") {
+                                            return false;
+                                        }
+                                    }
                                     let txt = s2.to_token_stream().to_string();
                                     txt.split(|c: char| !(c.is_alphanumeric() || c == '_')).any(|w| w == name)
                                 });
